@@ -245,6 +245,22 @@ theorem serialize_fails_only_if_str_fails (strOf : Nat → Except Err Str) (text
     cases h
     exact (unrepresentable_rendered_with_str strOf).2.1 _ _ he
 
+/-! ### elapsed.seconds -/
+
+/-- what is written under `record.elapsed.seconds` is the WHOLE duration – days included, negative
+durations included – i.e. `total_seconds()` of the record's own timedelta (exact microsecond count) -/
+theorem elapsed_seconds_is_total (td : TimeDelta) :
+    Gen.elapsedSecondsMicros td = td.days * 86400000000 + td.seconds * 1000000 + td.microseconds := by
+  simp only [Gen.elapsedSecondsMicros, TimeDelta.totalMicros]; omega
+
+/-- an expression built from `.seconds` and `.microseconds` alone is NOT the duration: one day and
+5.25 s, and minus one second, refute it (these are replayed on the implementation by the patcher
+stream of harness/c14.py) -/
+theorem elapsed_without_days_refuted :
+    (∃ td : TimeDelta, td.seconds * 1000000 + td.microseconds ≠ td.totalMicros ∧ 0 < td.days) ∧
+    (∃ td : TimeDelta, td.seconds * 1000000 + td.microseconds ≠ td.totalMicros ∧ td.totalMicros < 0) :=
+  ⟨⟨⟨1, 5, 250000⟩, by decide, by decide⟩, ⟨⟨-1, 86399, 0⟩, by decide, by decide⟩⟩
+
 /-! ### histories on one handler -/
 
 /-- Whatever a long-lived handler has serialised before (records at the same level, `logger.level`
